@@ -179,3 +179,19 @@ Theorem C12_code_optimise_own_covariance : forall (C Mx L : Type) (solve : C -> 
        mrf C Mx L (List.nth k cs' d) = Some (post (solve (cov C Mx L (List.nth k cs d))))).
 Proof. exact optimise_phase_own_covariance_nth. Qed.
 Print Assumptions C12_code_optimise_own_covariance.
+
+(* ---- the STATISTICS PHASE END TO END for the code AS TRANSLATED (Proofs/InterpStatistics.v): the skeleton of
+   update_all_cluster_statistics interpreted over abstract clusters / data and an arbitrary statistics helper, with the fresh-copy
+   discipline (a store into an object that did not come from shallow_copy raises).  For every number of clusters: the phase returns a
+   FRESH state in which cluster k, for every k in order, is the helper applied to THAT cluster, THE data of the call and the biased flag
+   of the GIVEN model's arguments; the state given is never stored into. ---- *)
+From Ticc Require Import Gen.G_cm_update_all Proofs.InterpStatistics.
+Theorem C12_code_statistics_phase_end_to_end : forall (Cl Dt : Type) (stats_of : Cl -> Dt -> bool -> Cl)
+    (cs : list Cl) (b : bool) (labels : list nat) (d : Dt),
+  exists log' : list (PySkel.event (InterpStatistics.val Cl Dt)),
+    g_update_all_cluster_statistics (InterpStatistics.val Cl Dt) (InterpStatistics.VInt Cl Dt) (InterpStatistics.as_int Cl Dt)
+      (InterpStatistics.getattr Cl Dt) (InterpStatistics.as_list Cl Dt) (InterpStatistics.oracle_model Cl Dt stats_of)
+      (InterpStatistics.VModel Cl Dt cs b labels) (InterpStatistics.VData Cl Dt d) nil
+    = (PyRt.Ret (InterpStatistics.VFresh Cl Dt (InterpStatistics.VModel Cl Dt (List.map (fun c : Cl => stats_of c d b) cs) b labels)), log').
+Proof. exact statistics_phase_end_to_end. Qed.
+Print Assumptions C12_code_statistics_phase_end_to_end.
